@@ -83,6 +83,23 @@ func runExpireVotes(ctx *action.Context, tx action.RawTx) (bool, action.Response
 		return false, result
 	}
 
+	//Only a proposal in voting whose voting deadline has passed can expire
+	//(same condition as the block beginner uses to queue this transaction)
+	if proposal.Status != governance.ProposalStatusVoting {
+		result := action.Response{
+			Events: action.GetEvent(expireVotes.Tags(), "expire_votes_failed"),
+			Log:    governance.ErrStatusNotVoting.Marshal(),
+		}
+		return false, result
+	}
+	if ctx.Header.Height <= proposal.VotingDeadline {
+		result := action.Response{
+			Events: action.GetEvent(expireVotes.Tags(), "expire_votes_failed"),
+			Log:    governance.ErrInvalidVotingDeadline.Wrap(errors.New("voting deadline has not passed")).Marshal(),
+		}
+		return false, result
+	}
+
 	//Update outcome and status of proposal
 	proposal.Status = governance.ProposalStatusCompleted
 	proposal.Outcome = governance.ProposalOutcomeInsufficientVotes
